@@ -326,6 +326,12 @@ func (w *world) doOp(ti int, name string, op sim.Op) {
 			w.serial++
 			ent := &abk{owner: ti, serial: w.serial, tag: byte(1 + w.serial%250)}
 			w.alloc[idx] = ent
+			if w.c.Mode == "huge" {
+				// header-only run: touching 12 KiB per block would make the 1.2 GB resident
+				e.Logf("%s arrange -> %s", name, out)
+				w.hist = nil
+				return
+			}
 			// write the tag over the whole block
 			ent.busy = true
 			blk, berr := w.bks.Block(idx)
@@ -704,6 +710,14 @@ func (w *world) Finished(e *sim.Env) bool {
 // exhaustion exactly when nothing is free (on small geometries).
 func (w *world) epilogue() {
 	e := w.e
+	if w.c.Mode == "huge" {
+		// accounting only (oracle 2 ran after every step); no snapshot of 1.2 GB
+		if a := w.bks.Available(); a != w.expCount-len(w.alloc) {
+			e.Violate("C17", "available_accounting", "Available()=%d, Count()=%d, %d blocks are allocated", a, w.expCount, len(w.alloc))
+		}
+		e.Probe("huge_geometry_run")
+		return
+	}
 	w.bufFault = map[int64]bool{}
 	ids := make([]int, 0, len(w.alloc))
 	for i := range w.alloc {
